@@ -15,6 +15,7 @@ def check(cx):
         'R6.3 every String-keyed container of the state is classified; every nick-keyed live container is cleaned with the departing nick by the (inlined) teardown; exactly one WHOWAS record is pushed',
         'R6.4 a channel is deleted exactly when its last member was removed and it is not preconfigured',
         'R6.5 teardown touches only entries keyed by the departing nick / the channels of the departing user',
+        'R6.6 (imported) a registered connection stays marked as registered until teardown (C03 R3.3/R3.6) and owns the nick it tears down (C02 R2.3/R2.5/R2.6)',
     ]
     ck.does_not_decide += ['OS-level delivery of EOF/RST', 'that the nick is the connection\'s own registered nick (C02 R2.6: violated on the pinned tree)',
                            'counters (C19)']
@@ -69,6 +70,12 @@ def check(cx):
     okq = [a for a in atoms(v) if a[0] == 'eq' and a[1][0] == 'call' and a[1][1].endswith('::load') and a[1][2] == field(ME, 'quit') and a[2] == ('lit', 0)]
     if not okq or not equivalent(v, Not(Atom(okq[0])))[0]:
         r1.violation('ConnState::is_quit|body', 'is_quit is not (quit flag != 0)', loc=fq)
+
+    # ---------------------------------------------------------------- R6.6 imported
+    r6 = cx.rule('R6.6', 'the teardown gate `authenticated` is true exactly for the registered owner (imported)', floor=2, kind='dependency')
+    depends(cx, r6, 'C03', ('R3.3', 'R3.6'), 'authenticated is written only by authenticate(), which is not re-entered once registered',
+            only=r'writes-authenticated|authenticate-reentry')
+    depends(cx, r6, 'C02', ('R2.3', 'R2.5', 'R2.6'), 'the connection owns the nick it tears down')
 
     # ---------------------------------------------------------------- R6.2
     r2 = cx.rule('R6.2', 'termination causes store the quit flag', floor=4, kind='must-exist')
